@@ -1374,7 +1374,9 @@ func run(c *harness.Case) {
 		return
 	}
 	if base.stuck {
+		// A Felix-named set with another type/family: ApplyUpdates can never succeed, nothing to enumerate.
 		cnt["cases_stuck_type_conflict"]++
+		return
 	}
 	// Enumerate every fault point of the baseline.
 	var plans []*faultPlan
@@ -1467,7 +1469,8 @@ func main() {
 			}
 			return 640
 		},
-		Run: run,
+		Run:         run,
+		CaseTimeout: 15 * time.Minute,
 		Floors: map[string]int64{
 			"apply_updates_ok": 5000, "cmd_list-names": 2000, "cmd_list-set": 5000, "cmd_restore": 3000, "cmd_destroy": 1500,
 			"restore_lines": 10000, "faults_list-names": 300, "faults_list-set": 500, "faults_restore_line": 800, "faults_restore_start": 200,
